@@ -247,17 +247,23 @@ def execute_pool_timeout(sc) -> Outcome:
     import httpcore._async.connection_pool as _pool_mod
 
     requeued = {}
-    _orig_clear = _pool_mod.AsyncPoolRequest.clear_connection
+    _req_cls = getattr(_pool_mod, "AsyncPoolRequest", None)
+    _orig_clear = getattr(_req_cls, "clear_connection", None)
+    if _orig_clear is None:
+        r.run()  # (the private hook is gone in this version of the library: the re-queue case is then judged like any other)
+    else:
+        def _clear(self_):
+            try:
+                requeued[bytes(self_.request.url.target)] = world.clock.now
+            except Exception:  # pragma: no cover
+                pass
+            return _orig_clear(self_)
 
-    def _clear(self_):
-        requeued[bytes(self_.request.url.target)] = world.clock.now
-        return _orig_clear(self_)
-
-    _pool_mod.AsyncPoolRequest.clear_connection = _clear
-    try:
-        r.run()
-    finally:
-        _pool_mod.AsyncPoolRequest.clear_connection = _orig_clear
+        _req_cls.clear_connection = _clear
+        try:
+            r.run()
+        finally:
+            _req_cls.clear_connection = _orig_clear
     vio = []
     what = ("[trio] " if sc.get("runtime") == "trio" else "") + f"{sc['kind']} max_connections={sc['holders']} waiters={[w['p'] for w in sc['waiters']]}"
     tags = [sc["kind"], "runtime-" + (sc.get("runtime") or "asyncio")]
